@@ -668,10 +668,14 @@ class WithinQualifier(_ExpressionQualifier):
         number_of_seconds (int): seconds value for 'within' qualifier
     """
     def __init__(self, number_of_seconds):
-        if isinstance(number_of_seconds, IntegerConstant):
+        if isinstance(number_of_seconds, (IntegerConstant, FloatConstant)):
             self.number_of_seconds = number_of_seconds
+        elif isinstance(number_of_seconds, bool):
+            raise ValueError("%s is not a valid argument for a Within Qualifier" % number_of_seconds)
         elif isinstance(number_of_seconds, int):
             self.number_of_seconds = IntegerConstant(number_of_seconds)
+        elif isinstance(number_of_seconds, float):
+            self.number_of_seconds = FloatConstant(number_of_seconds)
         else:
             raise ValueError("%s is not a valid argument for a Within Qualifier" % number_of_seconds)
 
